@@ -25,20 +25,25 @@ import (
 
 var (
 	// longProg makes a counter file's metadata about 500 bytes long (the cap is 512)
-	longProg      = "example.com/" + strings.Repeat("verylongpathelement/", 17) + "tool2"
-	vocabPrograms = []string{"golang.org/x/tools/gopls", "cmd/go", "cmd/gofmt", "example.com/tool", longProg}
+	longProg = "example.com/" + strings.Repeat("verylongpathelement/", 17) + "tool2"
+	// localProg is a program whose counter files start with "local.", like the local reports
+	localProg     = "example.com/m/local.test"
+	vocabPrograms = []string{"golang.org/x/tools/gopls", "cmd/go", "cmd/gofmt", "example.com/tool", longProg, localProg}
 	vocabVersions = map[string][]string{
 		"golang.org/x/tools/gopls": {"v0.14.0", "v0.15.1-pre.1", "v1.2.3", "v1.2.30", "devel"},
 		"example.com/tool":         {"v1.0.0", "v1.0.1", ""},
 		longProg:                   {"v1.0.0", "v0.15.1-pre.1"},
+		localProg:                  {"v1.0.0", ""},
 	}
 	vocabGo   = []string{"go1.21.5", "go1.22.1", "go1.22.10", "go1.23rc1", "devel"}
 	vocabOS   = []string{"linux", "darwin", "windows", "plan9"}
 	vocabArch = []string{"amd64", "arm64", "386"}
 	// counter expressions a configuration may list
-	vocabCounterExprs = []string{"editor/opens", "go/cmd/build", "flag:{v,x,json}", "gopls/gotoolchain:{auto,local,other}", "crash/crash", "gopls/client:{vscode,vim}", "editor/opens\ufffd", "flag:\ufffd"}
-	vocabStackExprs   = []string{"crash/crash", "gopls/bug", "editor/opens"}
-	frames            = "\ngolang.org/x/tools/gopls.main:+3,+0x1a\n\".run:+10,+0x44\nruntime.main:+100,+0x2"
+	vocabCounterExprs = []string{"editor/opens", "go/cmd/build", "flag:{v,x,json}", "gopls/gotoolchain:{auto,local,other}", "crash/crash", "gopls/client:{vscode,vim}", "editor/opens\ufffd", "flag:\ufffd",
+		// bucket texts with a closing brace that is not the last byte: the list is everything after the first {, less one final }
+		"lang:{go}1,rust}", "mode:{a,b}x"}
+	vocabStackExprs = []string{"crash/crash", "gopls/bug", "editor/opens"}
+	frames          = "\ngolang.org/x/tools/gopls.main:+3,+0x1a\n\".run:+10,+0x44\nruntime.main:+100,+0x2"
 )
 
 func versionsOf(prog string) []string {
@@ -56,6 +61,7 @@ func localNames(r *verifrt.Rand, canary string) map[string]uint64 {
 		// near misses
 		"flag:", "flag:{v,x,json}", "flag:vx", "flag:V", "xflag:v", "flag:v ", " flag:v", "flag:v,x", "flag", "editor/opens2", "editor/open", "Editor/opens",
 		"gopls/gotoolchain:", "gopls/gotoolchain:auto,local", "gopls/client:emacs", "go/cmd/build}", "{v,x,json}",
+		"lang:go", "lang:go}1", "lang:rust", "lang:rust}", "mode:a", "mode:b", "mode:b}x",
 		// plain counters named like stacks and vice versa
 		"crash/crash", "gopls/bug",
 		"crash/crash" + frames, "gopls/bug" + frames, "editor/opens" + frames, "go/cmd/build" + frames, "crash/crash2" + frames, "crash" + frames,
@@ -72,6 +78,11 @@ func localNames(r *verifrt.Rand, canary string) map[string]uint64 {
 	for i := 0; i < n; i++ {
 		name := pool[r.Intn(len(pool))]
 		m[name] = uint64(1 + r.Intn(1000))
+		if r.Intn(12) == 0 {
+			// a record that exists with the value 0 (its writer died between linking
+			// the record and adding to it): present locally, so it is reported, as 0
+			m[name] = 0
+		}
 	}
 	if r.Intn(8) == 0 {
 		// values at the top of the range: a counter that saturated in the file
